@@ -122,6 +122,7 @@ pub fn run_history(case: &str, pid: &str, seed_rng: &mut Rng, start: &[ANode], o
             None => gen_op(seed_rng, &st, &pool, cfg),
         };
         let before = snapshot(&st);
+        let before_forest = if pid == "C05" || pid == "ALL" { Some(oforest(&st)) } else { None };
         let before_ser = serialisations(&st);
         let before_roots = st.roots();
         let live_before = st.live_handles();
@@ -154,6 +155,25 @@ pub fn run_history(case: &str, pid: &str, seed_rng: &mut Rng, start: &[ANode], o
                     }
                 }
                 _ => {}
+            }
+        }
+        // ---- C05: the effect of a successful call is what the ordered-tree model predicts
+        if let Some(bf) = &before_forest {
+            match predict(bf, &op) {
+                Some(want) => {
+                    stats.bump("c05.predicted");
+                    let old: std::collections::BTreeSet<Handle> = bf.nodes.keys().copied().collect();
+                    match &outcome {
+                        Outcome::Ok(_) => {
+                            let got = oforest(&st);
+                            if want.canon(&old) != got.canon(&old) {
+                                out.fail(case, "effect-mismatch", &format!("step {}: `{}` left the store as {:?} but the ordered-tree model predicts {:?}", k, op_str(&op), got.canon(&old), want.canon(&old)));
+                            }
+                        }
+                        other => out.fail(case, "precondition-met-but-refused", &format!("step {}: `{}` satisfies the documented preconditions but returned {}", k, op_str(&op), outcome_str(other))),
+                    }
+                }
+                None => stats.bump("c05.unpredicted"),
             }
         }
         // ---- C04: validity, handle stability, is_removed for ever
